@@ -1,3 +1,4 @@
+import PGT.Proofs.HookCensus
 import PGT.Model.Schema
 import PGT.Model.CopyTo
 import PGT.Model.CopyFrom
@@ -72,5 +73,65 @@ theorem C17_copy_from (rec : FromRec) (ov : List (String × String)) (info : Fie
   unfold copyFromFieldWith
   simp [hk, writeField, hp]
   cases (attrs.getD []).lookup info.nameSnake <;> simp [FromSt.diag]
+
+-- ------------------------------------------------------------------------------------------------------
+-- the hook log is an exact census (proofs: `Proofs/HookCensus.lean`; no hypothesis on the IR, the Terraform value or the prior
+-- state for CopyFrom): a CopyFrom call appends exactly one `CopyFrom<Suffix>` call per custom field it visits – also when the
+-- attribute is missing, null or unknown –, handed the attribute as found, in visiting order, and nothing else; CopyTo appends one
+-- `CopyTo<Suffix>` call per readable custom field whose attribute type is present, handed the struct value, the attribute type
+-- and the attribute the target holds at that moment.
+
+/-- **the hook calls of the field blocks of a message are exactly the census** `fromHooksFields`, appended in order to
+the log present before – every IR, every Terraform value, every prior state; independent of the import path overrides -/
+theorem C17_from_hooks_exact (ov : List (String × String)) : ∀ (fs : List Field) (attrs : Option (List (String × TfVal)))
+    (st st' : FromSt), copyFromFields ov fs attrs st = .ok st' →
+      st'.hooks = st.hooks ++ fromHooksFields fs (attrs.getD []) := by
+  intros; apply PGT.fromFields_hooks <;> assumption
+
+/-- **`Copy<T>FromTerraform` calls exactly the census**: the source is an object and the hook log returned is
+`fromHooksFields` of its attributes -/
+theorem C17_copyFrom_hooks_exact (ov : List (String × String)) (m : Msg) (tf : TfVal) (obj : GoVal) (r : FromResult)
+    (h : copyFrom ov m tf obj = .ok r) :
+    ∃ u n as tys, tf = .obj u n as tys ∧ r.hooks = fromHooksFields m.fields (as.getD []) := by
+  intros; apply PGT.copyFrom_hooks <;> assumption
+
+/-- **(a) on runs**: every completed run of the field blocks has made at least one call per custom field of the
+message, whatever the input and the prior state … -/
+theorem C17_from_calls_every_custom_field (ov : List (String × String)) (fs : List Field) (attrs : Option (List (String × TfVal)))
+    (st st' : FromSt) (h : copyFromFields ov fs attrs st = .ok st') :
+    st.hooks.length + customCount fs ≤ st'.hooks.length := by
+  intros; apply PGT.copyFromFields_calls_ge <;> assumption
+
+/-- **(b) on runs**: every call a completed run appends is the call of a custom-field occurrence of the IR -/
+theorem C17_from_calls_only_custom_fields (ov : List (String × String)) (fs : List Field) (attrs : Option (List (String × TfVal)))
+    (st st' : FromSt) (h : copyFromFields ov fs attrs st = .ok st') (c : HookCall) (hc : c ∈ st'.hooks) :
+    c ∈ st.hooks ∨ (CustomAt fs (attrs.getD []) c ∧
+      ∃ (f : Field) (attrs' : List (String × TfVal)), Field.OccursIn f fs ∧ f.info.isPlaceholder = false ∧ f.info.kind = .custom ∧
+        c = .copyFrom ("CopyFrom" ++ f.info.suffix) ((attrs'.lookup f.info.nameSnake).getD .nilv)) := by
+  intros; apply PGT.copyFromFields_calls_custom <;> assumption
+
+/-- **(c)** an IR without custom fields at any depth: the log is unchanged -/
+theorem C17_from_no_custom_no_calls (ov : List (String × String)) (fs : List Field) (attrs : Option (List (String × TfVal)))
+    (st st' : FromSt) (hn : noCustomFields fs = true) (h : copyFromFields ov fs attrs st = .ok st') :
+    st'.hooks = st.hooks := by
+  intros; apply PGT.copyFromFields_noCustom <;> assumption
+
+/-- **the hook calls of the field blocks of `Copy<T>ToTerraform` are exactly the census** `toHooksFields`, appended in
+order to the log present before – every IR, every struct value, every attribute-type family, ANY target state
+(in place too) -/
+theorem C17_to_hooks_exact : ∀ (fs : List Field) (obj : GoVal) (atys : Option (List (String × TfTy))) (st st' : ToSt),
+    copyToFields fs obj atys st = .ok st' → st'.hooks = st.hooks ++ toHooksFields fs obj atys st.attrs := by
+  intros; apply PGT.toFields_hooks <;> assumption
+
+theorem C17_copyTo_hooks_closed_form (m : Msg) (obj : GoVal) (u n : Bool) (as : Option (List (String × TfVal)))
+    (atys : Option (List (String × TfTy))) (r : ToResult) (hd : snakeDistinctFields m.fields)
+    (h : copyTo m obj (.obj u n as atys) = .ok r) : r.hooks = toHooksFieldsS m.fields obj atys (as.getD []) := by
+  intros; apply PGT.copyTo_hooksS <;> assumption
+
+/-- **(b) on runs of CopyTo** -/
+theorem C17_to_calls_only_custom_fields (fs : List Field) (obj : GoVal) (atys : Option (List (String × TfTy))) (st st' : ToSt)
+    (h : copyToFields fs obj atys st = .ok st') (c : HookCall) (hc : c ∈ st'.hooks) : c ∈ st.hooks ∨ ToCallOf fs c := by
+  intros; apply PGT.copyToFields_calls_custom <;> assumption
+
 
 end PGT.Props.C17
